@@ -25,7 +25,7 @@ import (
 
 func c3NewCase(tag string) *c3Case {
 	return &c3Case{nparts: numDownloadParts, minSize: minDownloadPartSize, maxSize: maxDownloadPartSize,
-		retries: maxRetries, realm: []byte(c3Realm), tag: tag, reg: c3Manifest{config: c3Layer{"e", 0}}}
+		retries: maxRetries, fixed: c3ProbeFixed(), realm: []byte(c3Realm), tag: tag, reg: c3Manifest{config: c3Layer{"e", 0}}}
 }
 
 func (c *c3Case) addLayer(content []byte, asConfig bool) string {
@@ -744,9 +744,11 @@ func c3RunCase(t *testing.T, out *zzverif.Out, c *c3Case) {
 			// ---- L2 (mechanism): a failed attempt leaves no unverified blob under its final name
 			for k, b := range after.blobs {
 				if _, had := before.blobs[k]; !had {
-					blobOrigin[k] = "failed-attempt-rename"
-					if c3Sha(b) != k {
-						out.L2("corrupt-blob-after-failed-pull", line, "blob="+k[:12]+" left-by-failed-attempt "+where)
+					blobOrigin[k] = "failed-attempt-rename failed-with=" + res.class
+					if res.class == "err:digest-mismatch" && strings.Contains(res.errText, "want sha256:"+k) {
+						out.L2("mismatch-blob-not-removed", line, "blob="+k[:12]+" was reported as a digest mismatch and is still stored "+where)
+					} else if c3Sha(b) != k {
+						out.L2("corrupt-blob-after-failed-pull", line, "blob="+k[:12]+" left-by-failed-attempt failed-with="+res.class+" "+where)
 					}
 				}
 			}
@@ -977,7 +979,7 @@ func c3Challenge(out *zzverif.Out, h string) {
 		ch := parseRegistryChallenge(h)
 		return fmt.Sprintf("ok %s %s %s", zzverif.Hex([]byte(ch.Realm)), zzverif.Hex([]byte(ch.Service)), zzverif.Hex([]byte(ch.Scope)))
 	}()
-	line := "challenge 0 " + zzverif.Hex([]byte(h))
+	line := "challenge " + c3b(c3ProbeFixed()) + " " + zzverif.Hex([]byte(h))
 	out.Case(line, impl)
 	out.Count("challenge_cases")
 	if impl == "panic" {
@@ -1052,4 +1054,23 @@ func TestVerifC03Liveness(t *testing.T) {
 		}
 		out.L2("process-death", "live "+sc.name, detail)
 	}
+}
+
+// c3ProbeFixed executes the real getValue on the F5 input: the model variant (pinned / bounds-checked)
+// is chosen by what the tree under test does, so the check follows the repair when it lands.
+var c3FixedProbe = -1
+
+func c3ProbeFixed() bool {
+	if c3FixedProbe < 0 {
+		c3FixedProbe = 1
+		func() {
+			defer func() {
+				if recover() != nil {
+					c3FixedProbe = 0
+				}
+			}()
+			_ = getValue("realm=", "realm")
+		}()
+	}
+	return c3FixedProbe == 1
 }
